@@ -1,0 +1,252 @@
+//go:build verif
+
+package libinjection
+
+// Verification hooks: read-only accessors and an event tracer used by the
+// model-based conformance harness. Compiled only with `-tags verif`.
+
+import "unsafe"
+
+func verifPtr(s *sqliState) uintptr { return uintptr(unsafe.Pointer(s)) }
+func verifPtrH(h *h5State) uintptr  { return uintptr(unsafe.Pointer(h)) }
+
+// Event kinds reported to the tracer.
+const (
+	VerifEvSQLiBegin = 1 // IsSQLi: state initialised
+	VerifEvPassBegin = 2 // sqliFingerprint: state reset for a pass
+	VerifEvFoldIter  = 3 // fold: head of the main loop
+	VerifEvPassEnd   = 4 // sqliFingerprint: about to return
+	VerifEvSQLiEnd   = 5 // IsSQLi: about to return
+	VerifEvCtxBegin  = 6 // isXSS: tokenizer initialised for a context
+	VerifEvH5Tok     = 7 // isXSS: a token was produced
+)
+
+// VerifTok is a copy of one SQL token.
+type VerifTok struct {
+	Cat   byte
+	Pos   int
+	Len   int
+	Count int
+	Open  byte
+	Close byte
+	Val   string
+}
+
+// VerifEvent is what the tracer receives. ID identifies the per-call state.
+type VerifEvent struct {
+	Kind  int
+	ID    uintptr
+	Input string
+	Flags int
+
+	// SQLi
+	FPos        int
+	Left        int
+	More        bool
+	Vec         []VerifTok
+	LastComment byte
+	ScanPos     int
+	DDX         int
+	Hash        int
+	Folds       int
+	NTok        int
+	Fingerprint string
+
+	// XSS
+	Attr    int
+	TokType int
+	TokOff  int
+	TokLen  int
+}
+
+var verifTracer func(*VerifEvent)
+
+// VerifSetTracer installs (or removes, with nil) the tracer. It must not be
+// called while detector calls are in flight.
+func VerifSetTracer(f func(*VerifEvent)) { verifTracer = f }
+
+func verifCopyTok(t *sqliToken) VerifTok {
+	return VerifTok{Cat: t.category, Pos: t.pos, Len: t.len, Count: t.count, Open: t.strOpen, Close: t.strClose, Val: t.val}
+}
+
+func verifSQLiEvent(kind int, s *sqliState) {
+	t := verifTracer
+	if t == nil {
+		return
+	}
+	ev := &VerifEvent{Kind: kind, ID: verifPtr(s), Input: s.input, Flags: s.flags,
+		ScanPos: s.pos, DDX: s.statsCommentDDX, Hash: s.statsCommentHash, Folds: s.statsFolds,
+		NTok: s.statsTokens, Fingerprint: s.fingerprint}
+	t(ev)
+}
+
+func verifFoldIter(s *sqliState, pos, left int, more bool, lastComment *sqliToken) {
+	t := verifTracer
+	if t == nil {
+		return
+	}
+	ev := &VerifEvent{Kind: VerifEvFoldIter, ID: verifPtr(s), Input: s.input, Flags: s.flags,
+		FPos: pos, Left: left, More: more, LastComment: lastComment.category,
+		ScanPos: s.pos, DDX: s.statsCommentDDX, Hash: s.statsCommentHash, Folds: s.statsFolds,
+		NTok: s.statsTokens}
+	n := pos
+	if n > len(s.tokenVec) {
+		n = len(s.tokenVec)
+	}
+	for i := 0; i < n; i++ {
+		ev.Vec = append(ev.Vec, verifCopyTok(&s.tokenVec[i]))
+	}
+	t(ev)
+}
+
+func verifXSSEvent(kind int, h *h5State, flags int, attr int) {
+	t := verifTracer
+	if t == nil {
+		return
+	}
+	ev := &VerifEvent{Kind: kind, ID: verifPtrH(h), Input: h.s, Flags: flags, Attr: attr}
+	if kind == VerifEvH5Tok {
+		ev.TokType = h.tokenType
+		ev.TokOff = len(h.s) - len(h.tokenStart)
+		ev.TokLen = h.tokenLen
+	}
+	t(ev)
+}
+
+// VerifLexStep is one scan step of the SQL lexer: the offset before and after
+// the step, the token produced and the statistics counters after it.
+type VerifLexStep struct {
+	Before int
+	After  int
+	Tok    VerifTok
+	DDX    int
+	Hash   int
+	NTok   int
+}
+
+// VerifSQLiLex runs the lexer alone over input in the given mode. It stops
+// after limit steps (limit <= 0: len(input)+2). End is the scan offset when
+// tokenize() reported no more tokens; Overrun is set if limit was reached.
+func VerifSQLiLex(input string, flags int, limit int) (steps []VerifLexStep, end int, overrun bool) {
+	s := new(sqliState)
+	sqliInit(s, input, flags)
+	if limit <= 0 {
+		limit = len(input) + 2
+	}
+	for {
+		before := s.pos
+		if !s.tokenize() {
+			return steps, s.pos, false
+		}
+		steps = append(steps, VerifLexStep{Before: before, After: s.pos, Tok: verifCopyTok(s.current),
+			DDX: s.statsCommentDDX, Hash: s.statsCommentHash, NTok: s.statsTokens})
+		if len(steps) >= limit {
+			return steps, s.pos, true
+		}
+	}
+}
+
+// VerifPass is the outcome of one parsing pass on a fresh state.
+type VerifPass struct {
+	Flags       int
+	N           int // folded length
+	Toks        []VerifTok
+	Fingerprint string
+	Black       bool
+	NotWhite    bool // only meaningful when Black
+	Verdict     bool
+	ScanPos     int
+	DDX         int
+	Hash        int
+	Folds       int
+	NTok        int
+}
+
+// VerifSQLiFold runs fold() alone on a fresh state.
+func VerifSQLiFold(input string, flags int) VerifPass {
+	s := new(sqliState)
+	sqliInit(s, input, flags)
+	n := s.fold()
+	p := VerifPass{Flags: s.flags, N: n, ScanPos: s.pos, DDX: s.statsCommentDDX, Hash: s.statsCommentHash,
+		Folds: s.statsFolds, NTok: s.statsTokens}
+	for i := 0; i < n && i < len(s.tokenVec); i++ {
+		p.Toks = append(p.Toks, verifCopyTok(&s.tokenVec[i]))
+	}
+	return p
+}
+
+// VerifSQLiPass runs one fingerprinting pass and the blacklist / whitelist
+// decision on a fresh state.
+func VerifSQLiPass(input string, flags int) VerifPass {
+	s := new(sqliState)
+	sqliInit(s, input, 0)
+	fp := s.sqliFingerprint(flags)
+	p := VerifPass{Flags: s.flags, N: len(fp), Fingerprint: fp, ScanPos: s.pos, DDX: s.statsCommentDDX,
+		Hash: s.statsCommentHash, Folds: s.statsFolds, NTok: s.statsTokens}
+	for i := 0; i < len(fp) && i < len(s.tokenVec); i++ {
+		p.Toks = append(p.Toks, verifCopyTok(&s.tokenVec[i]))
+	}
+	p.Black = s.blacklist()
+	if p.Black {
+		p.NotWhite = s.notWhitelist()
+	}
+	p.Verdict = p.Black && p.NotWhite
+	return p
+}
+
+// VerifReparseAsMySQL reports the cascade gate computed from a pass result.
+func (p VerifPass) VerifReparseAsMySQL() bool { return p.DDX != 0 || p.Hash != 0 }
+
+// VerifH5Tok is one HTML5 token: type, offset in the input, length.
+type VerifH5Tok struct {
+	Type int
+	Off  int
+	Len  int
+}
+
+// VerifH5Tokens runs the HTML5 tokenizer from the given start context. It
+// stops after limit tokens (limit <= 0: len(input)+2).
+func VerifH5Tokens(input string, ctx int, limit int) (toks []VerifH5Tok, end int, overrun bool) {
+	h := new(h5State)
+	h.init(input, ctx)
+	if limit <= 0 {
+		limit = len(input) + 2
+	}
+	for h.next() {
+		toks = append(toks, VerifH5Tok{Type: h.tokenType, Off: len(h.s) - len(h.tokenStart), Len: h.tokenLen})
+		if len(toks) >= limit {
+			return toks, h.pos, true
+		}
+	}
+	return toks, h.pos, false
+}
+
+// VerifXSSCtx is the XSS verdict for one injection context (0..4).
+func VerifXSSCtx(input string, ctx int) bool { return isXSS(input, ctx) }
+
+func VerifIsBlackTag(s string) bool       { return isBlackTag(s) }
+func VerifIsBlackAttr(s string) int       { return isBlackAttr(s) }
+func VerifIsBlackURL(s string) bool       { return isBlackURL(s) }
+func VerifHTMLDecode(s string) (int, int) { return htmlDecodeByteAt(s) }
+
+// VerifNamed is a (name, type) pair of the XSS attribute / event lists.
+type VerifNamed struct {
+	Name string
+	Type int
+}
+
+// VerifTables returns copies of the five shipped detection tables.
+func VerifTables() (keywords map[string]byte, tags []string, attrs []VerifNamed, events []VerifNamed) {
+	keywords = make(map[string]byte, len(sqlKeywords))
+	for k, v := range sqlKeywords {
+		keywords[k] = v
+	}
+	tags = append(tags, blackTags...)
+	for _, b := range blacks {
+		attrs = append(attrs, VerifNamed{b.name, b.attributeType})
+	}
+	for _, e := range blackEvents {
+		events = append(events, VerifNamed{e.name, e.attributeType})
+	}
+	return
+}
